@@ -65,6 +65,9 @@ func (c *flagNameChecker) checkFlagName(call *ast.CallExpr, arg ast.Expr) {
 	if cv == nil {
 		return // Non-constant name
 	}
+	if cv.Kind() != constant.String {
+		return // Only possible if the package has type errors
+	}
 	name := constant.StringVal(cv)
 	switch {
 	case name == "":
